@@ -16,7 +16,7 @@ def rand_circuit(rng, n, k, ctrl_p=0.3):
                 g = ("c", rng.choice(free), g)
         if rng.random() < 0.2:
             g = ("dgr", g)
-        e = g if e is None else (rng.choice(["mul", "mul", "mulassign", "append", "pushsingles", "pushfront", "mulsingles", "mulrefmut"]), e, g)
+        e = g if e is None else (rng.choice(["mul", "mul", "mulassign", "append", "pushsingles", "pushfront", "mulsingles", "mulrefmut", "pushback", "wrapped"]), e, g)
     return e or ("id",)
 
 
